@@ -460,6 +460,50 @@ def oracle_real(ck, rng):
                          key={"site": "model.align-noncubic-rotation", "model": M.__name__}, oracle="noncubic_rotated_copy")
 
 
+def oracle_templates_from_files(ck, rng):
+    """templates handed over as files (pipe.from_files), in the caller's order - which is not the alphabetical one: the label of a particle made
+    from the j-th file is j, through loader.align_multi_templates, loader.align and the group"""
+    import os, tempfile, shutil, mrcfile
+    from acryo import SubtomogramLoader, Molecules, pipe
+    from acryo.alignment import ZNCCAlignment
+    from scipy import ndimage as ndi
+    dtmp = tempfile.mkdtemp(prefix="c06", dir=common.WORKROOT)
+    try:
+        names = ["template_2.mrc", "template_10.mrc", "template_1.mrc"]
+        tl = [ndi.gaussian_filter(rng.normal(size=(9, 9, 9)), 1.0).astype(np.float32) for _ in names]
+        paths = []
+        for nm_, t_ in zip(names, tl):
+            pth = os.path.join(dtmp, nm_)
+            with mrcfile.new(pth, overwrite=True) as fh:
+                fh.set_data(t_); fh.voxel_size = 10.0
+            paths.append(pth)
+        tomo = rng.normal(scale=0.02, size=(24, 24, 80)).astype(np.float32)
+        order_ = [2, 0, 1, 1, 0, 2]
+        pos = []
+        for i_, j_ in enumerate(order_):
+            c = (12, 12, 8 + 13 * i_)
+            tomo[c[0] - 4:c[0] + 5, c[1] - 4:c[1] + 5, c[2] - 4:c[2] + 5] += tl[j_]
+            pos.append(c)
+        ld = SubtomogramLoader(tomo, Molecules(np.array(pos, dtype=float), features={"g": [0, 0, 0, 1, 1, 1]}), order=1, scale=1.0, output_shape=(9, 9, 9))
+        prov = pipe.from_files(paths)
+        runs = {"align_multi_templates(from_files)": lambda: ld.align_multi_templates(prov, max_shifts=1.0, alignment_model=ZNCCAlignment).molecules.features["labels"].to_list(),
+                "align(from_files)": lambda: ld.align(prov, max_shifts=1.0, alignment_model=ZNCCAlignment).molecules.features["labels"].to_list(),
+                "groupby.align_multi_templates(list(from_files(...)(scale)))": lambda: [x for _, sub in ld.groupby("g").align_multi_templates(list(prov(1.0)), max_shifts=1.0, alignment_model=ZNCCAlignment)
+                                                                      for x in sub.molecules.features["labels"].to_list()],
+                "align_multi_templates(list of arrays)": lambda: ld.align_multi_templates(tl, max_shifts=1.0, alignment_model=ZNCCAlignment).molecules.features["labels"].to_list()}
+        for how, fn in runs.items():
+            ck.oracle_count("templates_from_files", 1, 1)
+            try:
+                got = [int(x) for x in fn()]
+                bad = None if got == order_ else f"labels {got} for particles made from files number {order_} of {names}"
+            except Exception as e:  # noqa
+                bad = f"raised {type(e).__name__}: {e}"
+            if bad:
+                ck.violation(what=f"{how}: {bad}", inp={"files": names, "made_from": order_}, key={"site": "templates-from-files", "how": how.split("(")[0]}, oracle="templates_from_files")
+    finally:
+        shutil.rmtree(dtmp, ignore_errors=True)
+
+
 def corr_rotation_set(ck, rng):
     """angles searched for a (max, step) range on one axis, decoded from the quaternions, against the model"""
     from acryo._rotation import _seq_of_max_and_step_to_quat
@@ -573,6 +617,7 @@ def run(ck: common.Check):
     oracle_rotation_set(ck, rng)
     oracle_callable_mask(ck, np.random.default_rng(ck.seed + 616161))
     corr_rotation_set(ck, np.random.default_rng(ck.seed + 60606))
+    oracle_templates_from_files(ck, np.random.default_rng(ck.seed + 60706))
 
 
 def replay(data):
